@@ -104,12 +104,7 @@ def impl_query(case, name):
             return "Results.population %r != Problem.population %r" % (a, b)
         return "ok " + vec(a)
     if kind == "groups":
-        g = []
-        for tag, members in p.populations().items():
-            if any(m.population_id != tag for m in members):
-                return "populations()[%r] holds an individual with another tag" % tag
-            g += members
-        return "ok " + vec(positions(inds, g))
+        return "ok " + ";".join("%d:%s" % (tag, vec(positions(inds, members))) for tag, members in p.populations().items())
     if kind == "table":
         return "ok " + mat([ph(row) for row in r.table(transpose=False)])
     if kind == "tableT":
@@ -137,7 +132,7 @@ def impl_query(case, name):
     if kind == "opt":
         j = name[1]
         o = r.find_optimum() if j < 0 else r.find_optimum('F_%d' % j)
-        return "ok %d" % positions(inds, [o])[0]
+        return "ok %d,%d" % (positions(inds, [o])[0], phi(o.costs[max(j, 0)]))
     raise ValueError(name)
 
 
@@ -160,7 +155,7 @@ def spec_query(case, name):
     if kind == "pop":
         return "ok " + vec(pop(name[1]))
     if kind == "groups":
-        return "ok " + vec(grouped)
+        return "ok " + ";".join("%d:%s" % (t, vec([k for k in range(len(inds)) if tags[k] == t])) for t in order)
     rows = [ph(inds[k][1]) + ph(inds[k][2]) for k in grouped]
     if kind == "table":
         return "ok " + mat(rows)
@@ -189,7 +184,7 @@ def spec_query(case, name):
         j = max(name[1], 0)
         vals = [phi(c[j]) for _, _, c in inds]
         best = min(vals) if case["criteria"][j] in (None, "minimize") else max(vals)
-        return "ok %d" % vals.index(best)
+        return "ok %d,%d" % (vals.index(best), best)
     raise ValueError(name)
 
 
@@ -211,6 +206,36 @@ def describe(name):
         return "Results.%s(%s, population_id=%d)" % ("goal_on_index" if name[1] == 0 else "parameter_on_index",
                                                       None if name[2] < 0 else name[2], name[3])
     return "Results.find_optimum(%s)" % ("" if name[1] < 0 else "'F_%d'" % name[1])
+
+
+def canon(name, ans):
+    """Canonical form of an answer: only what the property constrains is compared.
+    populations(): the tag -> members map (key order free); tables: the multiset of rows (generation order free;
+    the transposed table is transposed back); two-column listings: the multiset of (first, second) pairs plus, when
+    sorted, 'first column ascending'; optimum: a recorded individual and its cost value (which of several optimal
+    individuals is free)."""
+    if not ans.startswith("ok"):
+        return ans
+    body = ans[2:].strip()
+    kind = name[0]
+    if kind == "groups":
+        return ("groups", tuple(sorted(body.split(";")))) if body else ("groups", ())
+    if kind in ("table", "tableT"):
+        rows = [tuple(r.split(",")) for r in body.split(";")] if body else []
+        if kind == "tableT":
+            rows = list(zip(*rows))
+        return ("rows", tuple(sorted(rows)))
+    if kind in ("gop", "pog", "pop2"):
+        a, b = body.split("|")
+        a = [int(x) for x in a.split(",")] if a else []
+        b = [int(x) for x in b.split(",")] if b else []
+        if len(a) != len(b):
+            return ("ragged", ans)
+        return ("pairs", tuple(sorted(zip(a, b))), (not name[4]) or a == sorted(a))
+    if kind == "opt":
+        k, c = body.split(",")
+        return ("opt", int(k) >= 0, c)
+    return ans
 
 
 FAIL_KEY = {"pop": "population-query", "groups": "populations-grouping", "table": "table-rows", "tableT": "table-rows",
@@ -330,6 +355,14 @@ def impl_gd(ref, comp):
     return float(gd([tuple(r) for r in ref], [tuple(c) for c in comp]))
 
 
+def raises(f, ref, comp):
+    try:
+        f(ref, comp)
+    except Exception:   # noqa
+        return True
+    return False
+
+
 def eps_agrees(got, want):
     """want: exact Fraction (or inf).  Exact when the double equals it, otherwise within the R2 band."""
     if want == math.inf:
@@ -380,9 +413,55 @@ def run(ctx):
                 got = impl_query(c, name)
             except Exception as e:   # noqa
                 got = "raised %s: %s" % (type(e).__name__, e)
-            if got != want:
+            if canon(name, got) != canon(name, want):
                 report_query(ctx, c, name)
                 return
+    # ---- indicators
+    n_sets = 2500 if ctx.quick else 40000
+    sets = []
+    for k in range(n_sets):
+        kind = ["dyadic", "dyadic", "shift", "subset", "random"][k % 5]
+        sets.append((kind,) + gen_sets(rng, 8 if ctx.quick else 20, kind))
+    lines = []
+    for kind, ref, comp, d in sets:
+        lines += ["c17.eps %s|%s" % (mat(ref, rat), mat(comp, rat)), "c17.gd %s|%s" % (mat(ref, rat), mat(comp, rat))]
+    ans = ctx.lean(lines)
+    for k, (kind, ref, comp, d) in enumerate(sets):
+        m_eps, m_gd = ans[2 * k], ans[2 * k + 1]
+        ctx.case(("sets", tuple(map(tuple, ref)), tuple(map(tuple, comp))), len(ref) >= 2 and len(comp) >= 2,
+                 sample={"op": "indicators", "kind": kind, "reference": ref, "computed": comp, "shift": d})
+        ctx.count("sets_" + kind)
+        ctx.count("dim_%d" % len(ref[0]))
+        if not (m_eps.startswith("ok ") and m_gd.startswith("ok ")):
+            raise RuntimeError("model raised on an in-quantifier point set: %r %r" % (m_eps, m_gd))
+        want = unrat(m_eps[3:])
+        try:
+            got = impl_eps(ref, comp)
+        except Exception as e:   # noqa
+            comp = shrink_list(comp, lambda xs: raises(impl_eps, ref, xs), min_len=1)
+            ref = shrink_list(ref, lambda xs: raises(impl_eps, xs, comp), min_len=1)
+            ctx.fail("epsilon-add-raises", "epsilon_add(%r, %r) raises %s: %s" % (ref, comp, type(e).__name__, e),
+                     {"op": "eps", "ref": ref, "comp": comp})
+            return
+        ok = eps_agrees(got, want) and got >= 0
+        if kind == "shift":
+            ok = ok and Fraction(got) == Fraction(d)
+            ctx.count("shift_zero" if d == 0 else "shift_positive")
+        if not ok:
+            report_sets(ctx, "eps", ref, comp, d)
+            return
+        sq = [unrat(t) for t in m_gd[3:].split(",")]
+        want_gd = sum(math.sqrt(s) for s in sq) / len(comp)
+        try:
+            got_gd = impl_gd(ref, comp)
+        except Exception as e:   # noqa
+            ctx.fail("gd-raises", "gd(%r, %r) raises %s: %s" % (ref, comp, type(e).__name__, e), {"op": "gd", "ref": ref, "comp": comp})
+            return
+        zero_iff = (got_gd == 0.0) == all(s == 0 for s in sq)
+        ctx.count("gd_zero" if all(s == 0 for s in sq) else "gd_positive")
+        if not (close(got_gd, want_gd) and zero_iff):
+            report_sets(ctx, "gd", ref, comp, d)
+            return
     # ---- performance_measure on the recorded last population
     pm = []
     for c in cases[:150 if ctx.quick else 1500]:
@@ -413,57 +492,13 @@ def run(ctx):
             ctx.fail("performance-measure", "Results.performance_measure(%r) = %r, epsilon indicator of the last population's costs %r "
                      "is %s" % (ref, got, comp, float(unrat(a[3:]))), {"op": "pm", "case": c, "ref": ref, "comp": comp})
             return
-    # ---- indicators
-    n_sets = 2500 if ctx.quick else 40000
-    sets = []
-    for k in range(n_sets):
-        kind = ["dyadic", "dyadic", "shift", "subset", "random"][k % 5]
-        sets.append((kind,) + gen_sets(rng, 8 if ctx.quick else 20, kind))
-    lines = []
-    for kind, ref, comp, d in sets:
-        lines += ["c17.eps %s|%s" % (mat(ref, rat), mat(comp, rat)), "c17.gd %s|%s" % (mat(ref, rat), mat(comp, rat))]
-    ans = ctx.lean(lines)
-    for k, (kind, ref, comp, d) in enumerate(sets):
-        m_eps, m_gd = ans[2 * k], ans[2 * k + 1]
-        ctx.case(("sets", tuple(map(tuple, ref)), tuple(map(tuple, comp))), len(ref) >= 2 and len(comp) >= 2,
-                 sample={"op": "indicators", "kind": kind, "reference": ref, "computed": comp, "shift": d})
-        ctx.count("sets_" + kind)
-        ctx.count("dim_%d" % len(ref[0]))
-        if not (m_eps.startswith("ok ") and m_gd.startswith("ok ")):
-            raise RuntimeError("model raised on an in-quantifier point set: %r %r" % (m_eps, m_gd))
-        want = unrat(m_eps[3:])
-        try:
-            got = impl_eps(ref, comp)
-        except Exception as e:   # noqa
-            ctx.fail("epsilon-add-raises", "epsilon_add(%r, %r) raises %s: %s" % (ref, comp, type(e).__name__, e),
-                     {"op": "eps", "ref": ref, "comp": comp})
-            return
-        ok = eps_agrees(got, want) and got >= 0
-        if kind == "shift":
-            ok = ok and Fraction(got) == Fraction(d)
-            ctx.count("shift_zero" if d == 0 else "shift_positive")
-        if not ok:
-            report_sets(ctx, "eps", ref, comp, d)
-            return
-        sq = [unrat(t) for t in m_gd[3:].split(",")]
-        want_gd = sum(math.sqrt(s) for s in sq) / len(comp)
-        try:
-            got_gd = impl_gd(ref, comp)
-        except Exception as e:   # noqa
-            ctx.fail("gd-raises", "gd(%r, %r) raises %s: %s" % (ref, comp, type(e).__name__, e), {"op": "gd", "ref": ref, "comp": comp})
-            return
-        zero_iff = (got_gd == 0.0) == all(s == 0 for s in sq)
-        ctx.count("gd_zero" if all(s == 0 for s in sq) else "gd_positive")
-        if not (close(got_gd, want_gd) and zero_iff):
-            report_sets(ctx, "gd", ref, comp, d)
-            return
 
 
 # --------------------------------------------------------------------------- reports
 
 def query_bad(case, name):
     try:
-        return impl_query(case, name) != spec_query(case, name)
+        return canon(name, impl_query(case, name)) != canon(name, spec_query(case, name))
     except Exception:   # noqa
         return True
 
@@ -530,7 +565,7 @@ def replay(ctx, rp):
             got = "raised %s: %s" % (type(e).__name__, e)
         want = spec_query(case, name)
         print("%s\n  implementation: %s\n  recorded data:  %s" % (describe(name), got, want))
-        return got == want
+        return canon(name, got) == canon(name, want)
     if op in ("eps", "gd"):
         try:
             got = impl_eps(c["ref"], c["comp"]) if op == "eps" else impl_gd(c["ref"], c["comp"])
